@@ -30,6 +30,9 @@ func ShrinkBatch(b Batch, fails func(Batch) bool) Batch {
 			budget = 0
 			return false
 		}
+		if !nb.InDomain() {
+			return false // never shrink out of the input domain
+		}
 		budget--
 		return fails(nb)
 	}
